@@ -1,9 +1,10 @@
 /-
   C10 model driver.  ops (see harness/c10):
-    new <mtu> <frag> <reasm> <ifi> <cm> <thr> <seq>
+    new <mtu> <frag> <reasm> <ifi> <cm> <thr> <seq> <nthreads>
     mtu <n> | opt <frag> <ifi>      reconfiguration of the LIVE sending face between sends      => ok
-    tx <id> <pkthex> <tokhex|-> <itok> <mark|-> <inface|-> <cong>   => n=<k> <framehex>*
-    rx <id> <i>                                                    => ps=<n> [d=<pkthex>/<tokhex|->/<mark|->]* [st=<digest of all retained packets>]
+    tx <id> <pkthex> <tokhex|-> <itok> <mark|-> <inface|-> <cong> <hn> <hp>  => n=<k> <framehex>*
+       (hn, hp: hash facts of the dispatch rule — thread of the name, ascending threads of all prefixes)
+    rx <id> <i>                    => ps=<n> [d=<pkthex>/<tokhex|->/<mark|->@<threads queued to>]* [st=<digest of all retained packets>]
     end                                                            => ps=<n> [h=<pkthex>/<tokhex|->/<mark|->]*   (every retained packet again)
   DIFF: the Lean model of sendPacket / handleIncomingFrame against the real link services.
   SPEC: the specification predicates evaluated on the frames and deliveries of the REAL code.
@@ -28,6 +29,8 @@ structure MsgInfo where
   frames : List Bytes         -- frames emitted by the IMPLEMENTATION
   judged : Bool               -- the sender side was well-formed, so the receiver can be judged
   handed : List Nat := []
+  hn : Nat := 0               -- fw.HashNameToFwThread(name)            (hash facts from the tx line)
+  hp : List Nat := [0]        -- threads of fw.HashNameToAllPrefixFwThreads(name), ascending
 
 def fnvText (h : UInt64) (s : String) : UInt64 :=
   s.foldl (fun h c => (h ^^^ c.toNat.toUInt64) * 0x100000001b3) h
@@ -46,6 +49,7 @@ structure DSt where
   store : Store := []
   msgs : List MsgInfo := []
   judgeRx : Bool := true
+  nThreads : Nat := 1
 
 def optNatText (s : String) : Option (Option Nat) :=
   if s == "-" then some none else s.toNat?.map some
@@ -56,15 +60,25 @@ def natText : Option Nat → String
 def renderText (w tok : Bytes) (mark : Option Nat) : String :=
   s!"{hexOfBytes w}/{hexOrDash tok}/{natText mark}"
 
-def deliveryText (w tok : Bytes) (mark : Option Nat) : String := "d=" ++ renderText w tok mark
+def threadsText (ts : List Nat) : String := ",".intercalate (ts.map toString)
 
-def parseDelivery (s : String) : Option Delivery :=
+def deliveryText (w tok : Bytes) (mark : Option Nat) (threads : List Nat) : String :=
+  "d=" ++ renderText w tok mark ++ "@" ++ threadsText threads
+
+def parseThreads (s : String) : Option (List Nat) :=
+  if s.isEmpty then some [] else (s.splitOn ",").mapM String.toNat?
+
+/-- "d=<pkt>/<tok>/<mark>@<threads>" → the delivery and the threads it was queued to (call order) -/
+def parseDelivery (s : String) : Option (Delivery × List Nat) :=
   if !s.startsWith "d=" then none else
-  match ((s.drop 2).toString).splitOn "/" with
-  | [w, t, m] =>
-    match bytesOfHex w, (if t == "-" then some [] else bytesOfHex t), optNatText m with
-    | some w, some t, some m => some ⟨w, t, m⟩
-    | _, _, _ => none
+  match ((s.drop 2).toString).splitOn "@" with
+  | [body, ths] =>
+    match body.splitOn "/", parseThreads ths with
+    | [w, t, m], some ths =>
+      match bytesOfHex w, (if t == "-" then some [] else bytesOfHex t), optNatText m with
+      | some w, some t, some m => some (⟨w, t, m⟩, ths)
+      | _, _, _ => none
+    | _, _ => none
   | _ => none
 
 def bool01 (s : String) : Bool := s == "1"
@@ -72,14 +86,15 @@ def bool01 (s : String) : Bool := s == "1"
 def stepC10 (d : DSt) (op : String) (got : String) : StepResult DSt :=
   let crash : List SpecFail := if isCrash got then [⟨"no-crash", "crash", s!"{op.take 60}: {got}"⟩] else []
   match op.splitOn " " with
-  | ["new", mtu, frag, reasm, ifi, cm, thr, seq] =>
-    match mtu.toNat?, thr.toNat?, seq.toNat? with
-    | some mtu, some thr, some seq =>
+  | ["new", mtu, frag, reasm, ifi, cm, thr, seq, nth] =>
+    match mtu.toNat?, thr.toNat?, seq.toNat?.bind (fun s => nth.toNat?.map (fun n => (s, n))) with
+    | some mtu, some thr, some (seq, nth) =>
       let cfg : TxCfg := { mtu := mtu, fragEnabled := bool01 frag, ifiEnabled := bool01 ifi,
                            congMarking := bool01 cm, threshold := thr }
-      { st := { active := true, cfg := cfg, reasm := bool01 reasm, tx := { nextSeq := seq } },
+      { st := { active := true, cfg := cfg, reasm := bool01 reasm, tx := { nextSeq := seq },
+                nThreads := max 1 (min nth 8) },
         expected := some "ok",
-        cov := [if bool01 frag then "cfg-frag" else "cfg-nofrag"] ++ (if bool01 ifi then ["cfg-ifi"] else []) ++
+        cov := [s!"threads-{max 1 (min nth 8)}"] ++ [if bool01 frag then "cfg-frag" else "cfg-nofrag"] ++ (if bool01 ifi then ["cfg-ifi"] else []) ++
                (if bool01 cm then ["cfg-congestion-marking"] else []) ++
                (if seq + 300 ≥ two64 then ["seq-near-2^64"] else if seq + 300 ≥ 4294967296 ∧ seq < 4294967296 then ["seq-near-2^32"] else []) }
     | _, _, _ => { st := {}, expected := some "bad-op" }
@@ -93,10 +108,11 @@ def stepC10 (d : DSt) (op : String) (got : String) : StepResult DSt :=
     if !d.active then { st := d, expected := some "skip" } else
     { st := { d with cfg := { d.cfg with fragEnabled := bool01 frag, ifiEnabled := bool01 ifi } },
       expected := some "ok", spec := crash, cov := ["reconf-options"] }
-  | ["tx", id, pkt, tok, _itok, mark, inface, cong] =>
+  | ["tx", id, pkt, tok, _itok, mark, inface, cong, hn, hp] =>
     if !d.active then { st := d, expected := some "skip" } else
-    match bytesOfHex pkt, (if tok == "-" then some [] else bytesOfHex tok), optNatText mark, optNatText inface with
-    | some wire, some tok, some mark, some inface =>
+    match bytesOfHex pkt, (if tok == "-" then some [] else bytesOfHex tok), optNatText mark, optNatText inface,
+          hn.toNat?.bind (fun a => (parseThreads hp).map (fun b => (a, b))) with
+    | some wire, some tok, some mark, some inface, some (hn, hp) =>
       -- ---------- model
       let p : OutPkt := { wire := wire, token := tok, mark := mark, inFace := inface, congested := bool01 cong }
       let r := sendPacketF d.cfg d.tx p
@@ -146,10 +162,10 @@ def stepC10 (d : DSt) (op : String) (got : String) : StepResult DSt :=
              | none => []
              | some why => [⟨"delivers-original", "frames-" ++ why, s!"mtu={d.cfg.mtu} packet={wire.length}B {iframes.length} frame(s): the frames do not carry the packet ({why})"⟩])
         let judged := inScope && fails.isEmpty && d.reasm
-        let info : MsgInfo := { id := id, sent := m, frames := iframes, judged := judged }
+        let info : MsgInfo := { id := id, sent := m, frames := iframes, judged := judged, hn := hn, hp := hp }
         { st := { d with tx := r.1, msgs := info :: d.msgs.filter (·.id ≠ id) }, expected := some expected,
           spec := crash ++ fails, cov := cov, nontrivial := iframes.length > 1 }
-    | _, _, _, _ => { st := d, expected := some "bad-op" }
+    | _, _, _, _, _ => { st := d, expected := some "bad-op" }
   | ["rx", id, i] =>
     if !d.active then { st := d, expected := some "skip" } else
     match d.msgs.find? (·.id = id), i.toNat? with
@@ -159,35 +175,49 @@ def stepC10 (d : DSt) (op : String) (got : String) : StepResult DSt :=
       | some frame =>
         -- ---------- model
         let r := handleFrame d.reasm outerOk d.store frame
+        let mthreads := match r.2 with
+          | .drop => []
+          | .deliver x => dispatchThreads d.nThreads x.wire x.token info.hn info.hp
         let heldModel' := match r.2 with
           | .drop => d.heldModel
-          | .deliver x => d.heldModel ++ [renderText x.wire x.token x.mark]
+          | .deliver x => if mthreads.isEmpty then d.heldModel else d.heldModel ++ [renderText x.wire x.token x.mark]
         let (expected, cov) : Option String × List String := match r.2 with
           | .drop => (some s!"ps={r.1.length}", [if r.1.length > d.store.length then "rx-store-new" else if r.1.length > 0 ∧ info.frames.length > 1 then "rx-store-more" else "rx-drop"])
-          | .deliver x => (some s!"ps={r.1.length} {deliveryText x.wire x.token x.mark} st={heldDigest heldModel'}",
+          | .deliver x =>
+            if mthreads.isEmpty then (some s!"ps={r.1.length}", ["rx-dispatch-drop"]) else
+            (some s!"ps={r.1.length} {deliveryText x.wire x.token x.mark mthreads} st={heldDigest heldModel'}",
                            [if info.frames.length > 1 then "rx-deliver-reassembled" else "rx-deliver-single"] ++
+                           [if mthreads.length > 1 then "rx-dispatch-several-threads" else "rx-dispatch-one-thread"] ++
                            (if info.frames.length > 1 && !d.heldModel.isEmpty then ["rx-deliver-while-holding-earlier"] else []))
         -- ---------- specification on the implementation's deliveries
         let dup := info.handed.contains i
         let judge := d.judgeRx && info.judged && !dup
         let toks := (got.splitOn " ").filter (· ≠ "")
-        let idel : List (Option Delivery) := (toks.filter (·.startsWith "d=")).map parseDelivery
-        let want := expectedAt info.sent info.frames.length info.handed i
+        let idelT : List (Option (Delivery × List Nat)) := (toks.filter (·.startsWith "d=")).map parseDelivery
+        let wantThreads := destThreads d.nThreads info.sent info.hn info.hp
+        let want := if wantThreads.isEmpty then [] else expectedAt info.sent info.frames.length info.handed i
         let fails : List SpecFail :=
           if !judge || !got.startsWith "ps=" then [] else
-          if idel.any Option.isNone then [⟨"delivered-exactly-once", "unparsable", got.take 80 |>.toString⟩] else
-          let idel := idel.filterMap (fun x => x)
-          if idel = want then [] else
+          if idelT.any Option.isNone then [⟨"delivered-exactly-once", "unparsable", got.take 80 |>.toString⟩] else
+          let idelT := idelT.filterMap (fun x => x)
+          let idel := idelT.map (·.1)
+          if idel = want then
+            -- the right packet(s): each must have been queued exactly once to every destination thread
+            (idelT.filter (fun x => !threadsOk wantThreads x.2)).map fun x =>
+              ⟨"delivered-exactly-once",
+               (if x.2.any (fun t => x.2.count t > 1) then "twice-to-a-thread" else "wrong-threads"),
+               s!"message {id}: queued to forwarding thread(s) {x.2}, the dispatch rule gives {wantThreads} (each exactly once)"⟩
+          else
           match want, idel with
           | [w], [] => [⟨"delivered-exactly-once", "missing", s!"all {info.frames.length} frame(s) of message {id} ({w.wire.length}B) have arrived, nothing was delivered"⟩]
           | [], x :: _ => [⟨"delivered-exactly-once", "unexpected", s!"message {id}: a {x.wire.length}B packet was delivered before all frames arrived / a second time"⟩]
           | [w], [x] => [⟨"delivered-exactly-once",
                           (if x.wire ≠ w.wire then "wrong-bytes" else if x.token ≠ w.token then "wrong-token" else "wrong-mark"),
                           s!"message {id}: delivered {x.wire.length}B token={hexOrDash x.token} mark={natText x.mark}, sent {w.wire.length}B token={hexOrDash w.token} mark={natText w.mark}"⟩]
-          | _, _ => [⟨"delivered-exactly-once", "count", s!"message {id}: {idel.length} deliveries at one arrival"⟩]
+          | _, _ => [⟨"delivered-exactly-once", "count", s!"message {id}: {idel.length} distinct packets delivered at one arrival"⟩]
         -- delivered packets must keep their bytes while the forwarder holds them: the harness retains
         -- every delivered packet uncopied and re-renders all of them (digest `st`) at each delivery
-        let newImpl := (toks.filter (·.startsWith "d=")).map (fun t => (t.drop 2).toString)
+        let newImpl := (toks.filter (·.startsWith "d=")).map (fun t => (((t.drop 2).toString).splitOn "@").headD "")
         let heldImpl' := d.heldImpl ++ newImpl
         let stable : List SpecFail :=
           match toks.find? (·.startsWith "st=") with
